@@ -71,6 +71,31 @@ func (tr *FnTrans) callWith(c *ssa.CallCommon, site ssa.Instruction, pos token.P
 		return tr.unknownCall(callee.String(), sig, true)
 	}
 	name := fnDisplayName(callee)
+	// sync.Once.Do(f) with f a closure created in this function whose body is
+	// under contract: either f runs now (its contract applies) or it ran
+	// before (no effect) - nondeterministic choice
+	if callee.String() == "(*sync.Once).Do" && len(c.Args) == 2 {
+		if mc, ok := c.Args[1].(*ssa.MakeClosure); ok {
+			if cfn, ok := mc.Fn.(*ssa.Function); ok {
+				if cfc := tr.w.contractFor(cfn); cfc != nil && !cfc.ModAll {
+					env := map[string]Val{}
+					for i, fv := range cfn.FreeVars {
+						env[fv.Name()] = tr.val(mc.Bindings[i])
+					}
+					chosen := vc.fresh("once_runs", sortBool)
+					save := tr.curReach
+					before := tr.cur.clone()
+					tr.curReach = sAnd(save, chosen)
+					tr.applyContractEnv(cfc, relName(cfn), cfn.Signature, nil, env, tr.pkg, pos)
+					after := tr.cur
+					tr.curReach = save
+					tr.cur = tr.mergeHeaps([]string{chosen, "true"}, []*Heap{after, before})
+					vc.assume("sync.Once.Do(f): f runs at most once; modelled as 'f runs now or has run before'")
+					return Val{K: KUnit}
+				}
+			}
+		}
+	}
 	fc := tr.w.contractFor(callee)
 	if fc == nil {
 		if tr.w.inRepo(callee) {
@@ -178,9 +203,19 @@ func (tr *FnTrans) unknownCall(name string, sig *types.Signature, havoc bool) Va
 }
 
 func (tr *FnTrans) applyContract(fc *FuncContract, name string, sig *types.Signature, args []Val, hasRecv bool, cpkg *types.Package, pos token.Pos) Val {
+	return tr.applyContractEnv(fc, name, sig, args, nil, cpkg, pos, hasRecv)
+}
+
+// applyContractEnv: call rule; extra binds additional names (free variables
+// of a closure).
+func (tr *FnTrans) applyContractEnv(fc *FuncContract, name string, sig *types.Signature, args []Val, extra map[string]Val, cpkg *types.Package, pos token.Pos, recv ...bool) Val {
 	vc := tr.vc
 	fc.Used = true
+	hasRecv := len(recv) > 0 && recv[0]
 	env := map[string]Val{}
+	for k, v := range extra {
+		env[k] = v
+	}
 	i := 0
 	if hasRecv && len(fc.Params) == len(args) {
 		hasRecv = false // the contract lists the receiver as an ordinary parameter
